@@ -199,10 +199,30 @@ def _fork_case(kind, order, actions):
         want.append(_norm(seqw.serve(rq).out))
     try:
         socks = []
+        import threading
+
+        def accept_one(pending):
+            """accept + fork/thread.  The WORKER blocks peeking at the first byte; the accept loop
+            itself must come back at once even though the client has not said anything yet."""
+            t = threading.Thread(target=server.handle_request, daemon=True)
+            t.start()
+            t.join(3)
+            if t.is_alive():
+                for ps in pending:  # unblock it so the case can be torn down
+                    try:
+                        ps.sendall(b"/d/small.txt\r\n")
+                    except OSError:
+                        pass
+                t.join(10)
+                return False
+            return True
+
         for _ in reqs:
             s = socket.create_connection(server.server_address, timeout=10)
             socks.append(s)
-            server.handle_request()  # accept + fork/thread; the worker blocks peeking at the first byte
+            if not accept_one(socks):
+                bad.append(("accept-loop-blocked", "the accept loop did not return while a connected client was still silent: no other client can be served meanwhile"))
+                return bad
         if 0 in actions:
             server.service_actions()
         for pos, i in enumerate(order, start=1):
@@ -220,7 +240,9 @@ def _fork_case(kind, order, actions):
                 server.service_actions()
         # the listener still accepts
         s = socket.create_connection(server.server_address, timeout=10)
-        server.handle_request()
+        if not accept_one([s]):
+            bad.append(("accept-loop-blocked", "the accept loop did not return for a client connecting after the burst"))
+            return bad
         s.sendall(reqs[0])
         buf = b""
         while True:
